@@ -83,6 +83,7 @@ def run(ctx, eng):
     ctx.record('functions_reachable', len(reach))
     ctx.floor('functions_reachable', 70)
     require_summaries(ctx, eng, reach)
+    cm.attrs_initialised(ctx, eng)
     # ---- per-obligation accounting inside the reachable set
     D = eng.D
     n_ops = n_dis = 0
